@@ -26,6 +26,7 @@ pub use adaptors::*;
 pub use buffered::*;
 // Re-export Lease trait from core for convenience
 pub use d_engine_core::Lease;
+pub(crate) use lease::MAX_TTL_SECS;
 pub use lease::TtlLease;
 #[cfg(d_engine_verif)]
 pub use lease::verif_clock;
